@@ -23,9 +23,10 @@ var LetPrefixes = []string{
 
 type useSite struct {
 	Query string
-	Pos   int    // expression position as in C01 (-1: structural check only)
-	Table string // expected FROM table of the (first) SELECT when set
-	Alias string // expected alias of the first non-star item when set
+	Pos   int      // expression position as in C01 (-1: structural check only)
+	Table string   // expected FROM table of the (first) SELECT when set
+	Alias string   // expected alias of the first non-star item when set
+	Cols  []string // names the program writes quoted or qualified: they must reach the SQL as quoted identifiers
 }
 
 var UseSites = []useSite{
@@ -41,8 +42,8 @@ var UseSites = []useSite{
 	{Query: "T | sort by n", Pos: 6},
 	{Query: "T | join (U) on $left.a == n", Pos: 10},
 	{Query: "T | join (U) on $left.b == $right.b + n", Pos: 10},
-	{Query: "T | where `n` > 1", Pos: 0},
-	{Query: "T | where a.n > n.a", Pos: 0},
+	{Query: "T | where `n` > 1", Pos: 0, Cols: []string{"n"}},
+	{Query: "T | where a.n > n.a", Pos: 0, Cols: []string{"a", "n"}},
 	{Query: "T | where n(1) > m(n)", Pos: 0},
 	{Query: "n | where a > 1", Pos: 0, Table: "n"},
 	{Query: "T | project n = a + n", Pos: 1, Alias: "n"},
@@ -125,6 +126,15 @@ func CheckScoping(prefix, query, suffix string, site useSite, params map[string]
 			}
 		}
 		verif.Assert(found, "a column alias was substituted by a binding")
+	}
+	for _, name := range site.Cols {
+		found := false
+		for _, t := range SQLLex(sql, ClickHouse) {
+			if t.Kind == SQLQIdent && t.Val == name {
+				found = true
+			}
+		}
+		verif.Assert(found, "a quoted or qualified name was substituted by a binding")
 	}
 	if site.Pos >= 0 {
 		x := pqlExprAt([]parser.Statement{q}, site.Pos)
